@@ -11,6 +11,7 @@
 int main(void)
 {
 	char *line = NULL; size_t cap = 0; ssize_t n; unsigned long caseno = 0;
+	setvbuf(stdout, NULL, _IOLBF, 0);   /* a line per case reaches the harness even if a later case is stopped by a sanitizer */
 	while ((n = getline(&line, &cap, stdin)) > 0) {
 		char *cmd = strtok(line, " \n"), *init = strtok(NULL, " \n");
 		char *hx = strtok(NULL, " \n"), *sp = strtok(NULL, " \n");
